@@ -130,6 +130,7 @@ structure GCtx where
   pk : Bool := false                   -- class v3: calls of pure functions in operands
   abase : Nat → Nat := fun _ => 0      -- word address of the global array with the given id
   asize : Nat → Nat := fun _ => 0      -- its length
+  rho : String → Option Word := fun _ => none   -- the global `val` constants
 
 def GCtx.S (G : GCtx) (pi : PInfo) : Nat := (frameOf G.cg pi.idx).size
 def GCtx.xl (G : GCtx) (pi : PInfo) : String := (frameOf G.cg pi.idx).exitLabel
@@ -187,7 +188,7 @@ theorem GCtx.locOf_cases (G : GCtx) (pi : PInfo) (sp : Nat) (n : String) (a : Na
 
 /-- The context of an activation of `pi` with stack pointer `sp` at nesting depth `dep`. -/
 def KOf (G : GCtx) (pi : PInfo) (sp dep : Nat) (hi : Nat → Word) : PCtx :=
-  { env := G.env, out := G.cg, ctx := G.ctxOf pi, xc := G.xc, ρ := fun _ => none, sp := sp,
+  { env := G.env, out := G.cg, ctx := G.ctxOf pi, xc := G.xc, ρ := G.rho, sp := sp,
     loc := G.locOf pi sp, consts := G.consts, nlocals := pi.p.locals.length, hi := hi,
     gnames := G.gnames ++ G.pnames, dep := dep, abase := G.abase, asize := G.asize }
 
@@ -217,7 +218,7 @@ structure GCtx.OK (G : GCtx) : Prop where
   at_pro : ∀ pi ∈ G.procs, At G.env.ds pi.iPro (proDirs pi.kind pi.p.name (G.S pi))
   at_body : ∀ pi ∈ G.procs, At G.env.ds (G.iBody pi) (lowerCode G.cg pi.code)
   at_epi : ∀ pi ∈ G.procs, At G.env.ds (G.iEpi pi) (G.epi pi)
-  gen : ∀ pi ∈ G.procs, genStmt (G.ctxOf pi) (optStmt (annotS (fun _ => none) pi.p.body)) pi.gs1 = .ok (pi.code, pi.gs2)
+  gen : ∀ pi ∈ G.procs, genStmt (G.ctxOf pi) (optStmt (annotS G.rho pi.p.body)) pi.gs1 = .ok (pi.code, pi.gs2)
   size_ok : ∀ pi ∈ G.procs, pi.gs2.size ≤ G.S pi
   nl_ok : ∀ pi ∈ G.procs, pi.p.locals.length ≤ pi.gs1.offset
   consts_ok : ∀ pi ∈ G.procs, ∀ e ∈ pi.gs2.constMap, e ∈ G.consts
@@ -232,7 +233,7 @@ structure GCtx.OK (G : GCtx) : Prop where
   genv_vars : ∀ n, G.xc.genv.lookup n = some .var → n ∈ G.gnames
   genv_arrs : ∀ n id, G.xc.genv.lookup n = some (.array id) → n ∈ G.gnames
   gnames_genv : ∀ n ∈ G.gnames, G.xc.genv.lookup n = some .var ∨ ∃ id, G.xc.genv.lookup n = some (.array id)
-  no_vals : ∀ n w, G.xc.genv.lookup n ≠ some (.val w)
+  rho_ok : ∀ n w, G.xc.genv.lookup n = some (.val w) ↔ G.rho n = some w
   pnames_ok : ∀ f p, G.xc.genv.lookup f = some (.proc p) → f ∈ G.pnames
   pnames_mem : ∀ f ∈ G.pnames, ∃ p, G.xc.genv.lookup f = some (.proc p)
   low_global : ∀ pi ∈ G.procs, ∀ sp n a, G.lo ≤ sp → G.locOf pi sp n = some a → a < sp → n ∈ G.gnames
